@@ -136,7 +136,7 @@ fn d_idle_timeout() {
     }
 }
 
-// @h props=C03,C04,C20 tier=quick t=300 expect=fail sub=twin
+// @h props=C03,C04,C20 tier=quick t=900 expect=fail sub=twin
 // @fn wtransport/src/connection.rs Connection::max_datagram_size (sliced)
 // @bound twin: claims the advertised maximum is always None; must be refuted
 #[kani::proof]
